@@ -377,3 +377,5 @@ MANIFEST = {
     'technique': 'finite-abstraction interpretation over the CFG + dominance + typestate',
     'design_ref': 'DESIGN.md 3/C08',
 }
+MANIFEST['note'] += (' Also decided here (necessary conditions shared between properties or added after the independent '
+                     'change rounds, DESIGN.md 8.7): role of the successor IKE_SA (from C01), every sent request is the retained one (from C13), from_exception cannot raise.')
